@@ -1365,8 +1365,31 @@ def c08_configs(tier):
     return cs
 
 
+def c08_extra(tier, rnd):
+    """responses the DISPATCHER writes under an outbound limit: MQTT 5 server, the peer announced a small Maximum Packet
+    Size, handlers acknowledge QoS 1 / QoS 2 publishes with reason strings and user properties of varied sizes (the
+    encoder leaves out what does not fit), each followed by a PINGREQ so that a wrong length swallows the next frame"""
+    runs = []
+    dresses = [(10, 0), (0, 2), (10, 2), (30, 3), (-1, 3), (3, 1)]
+    lims = range(14, 80, 3) if tier == "quick" else range(8, 120)
+    for mps in lims:
+        for rs, up in dresses:
+            for q in (1, 2):
+                cfg = dict(role="server", ver=5, gate_pub=0, gate_proto=0, max_qos=2, max_receive=16, max_send=4, raw=1)
+                cmds = [handshake("server", 5, connect={"mps": mps, "rm": 4}),
+                        {"c": "arm", "o": "ok", "rs": rs, "up": up},
+                        {"c": "in", "p": {"t": "publish", "q": q, "id": 21, "topic": "t", "plen": 1}},
+                        {"c": "in", "p": {"t": "pingreq"}},
+                        {"c": "arm", "o": "nack_ok", "code": 16, "rs": rs, "up": up},
+                        {"c": "in", "p": {"t": "publish", "q": q, "id": 22, "topic": "t", "plen": 1}},
+                        {"c": "in", "p": {"t": "pingreq"}},
+                        {"c": "settle"}]
+                runs.append(dict(cfg=cfg, cmds=cmds, src="dressed_acks"))
+    return runs
+
+
 reg(dict(
-    name="stream", judge="StreamJudge", configs=c08_configs, signature=lambda v: f"{v['why']}|v{v['cfg']['ver']}|{v['cfg']['role']}|" + "+".join(sorted({c.get('k', c['c']) for c in v['cmds'] if c['c'] in ('send', 'chunk', 'sdrop', 'close')})),
+    name="stream", judge="StreamJudge", configs=c08_configs, extra_runs=c08_extra, signature=lambda v: f"{v['why']}|v{v['cfg']['ver']}|{v['cfg']['role']}|" + "+".join(sorted({c.get('k', c['c']) for c in v['cmds'] if c['c'] in ('send', 'chunk', 'sdrop', 'close')})),
     level={}, quota=500, quota_thorough=30000,
     rule="TLC enumerates every sequence (<= 4) over 17 sink-operation tokens: QoS 0/1/2 sends, QoS 0 with a packet id, streamed QoS 1 and QoS 0 "
          "sends, chunks (exact, short, over-delivery), dropped stream, sends that fail in the encoder (70000-byte topic, "
